@@ -57,7 +57,11 @@ func snapshot(t *tree.Tree) string {
 				continue
 			}
 			e := n.Edges()[i]
-			fmt.Fprintf(&b, " <l=%v s=%v p=%v c=%q>", e.Length(), e.Support(), e.PValue(), e.Comments())
+			fmt.Fprintf(&b, " <l=%v s=%v p=%v c=%q", e.Length(), e.Support(), e.PValue(), e.Comments())
+			if bs := e.Bitset(); bs != nil {
+				fmt.Fprintf(&b, " bits=%s %d/%d h=%d", bs.String(), e.NumTipsLeft(), e.NumTipsRight(), e.HashCode())
+			}
+			b.WriteString(">")
 			rec(m, n)
 		}
 		b.WriteString("}")
